@@ -21,7 +21,7 @@
 //   ev                                    hook-H1 event log since the last `ev`                     -> E nOps/alloc nSt/alloc : events
 //   tape                                  whole tape                                               -> T nst nop | lhs:m*i,.. | ..
 //   geom <h>                              geometry of an object                                    -> G ...
-//   pad <k>                               push k dummy operations+1 statement (C09: choose the fill level)  -> ok
+//   pad <k>                               k>0: identity statement d[0] = 1*d[0]+0*d[0]+.. (k operations): sets the fill level  -> ok
 //
 // GEOMETRY  h=<handle>;r=<root handle>;k=<kind>;a=<0|1>;g=<gradient_index()|-1>;o=<offset of data() from the root's
 //           first cell>;d=<dims,>;s=<strides,>;v=<values in index order, read through operator()>
@@ -331,6 +331,7 @@ static bool split_colon(const Words& w, size_t from, std::vector<std::string>& a
 }
 
 int main() {
+  std::cout << std::unitbuf;   // a sanitizer abort must not swallow the lines already produced
   st = new verif::SpyStack();
   std::string line;
   while (std::getline(std::cin, line)) {
@@ -393,10 +394,14 @@ int main() {
       } else if (w[0] == "nr") { st->new_recording(); std::cout << "ok\n"; }
       else if (w[0] == "geom" && w.size() == 2 && get(w[1])) std::cout << "G " << geom(atol(w[1].c_str())) << "\n";
       else if (w[0] == "pad" && w.size() == 2) {
+        // k operations forming the identity statement d[0] = 1*d[0] + 0*d[0] + ...: moves the fill level of the
+        // operation buffer without changing any derivative
         long k = atol(w[1].c_str());
-        st->check_space(k);
-        for (long i = 0; i < k; ++i) st->push_rhs(0.0, 0);
-        st->push_lhs(0);
+        if (k > 0) {
+          st->check_space(k);
+          for (long i = 0; i < k; ++i) st->push_rhs(i == 0 ? 1.0 : 0.0, 0);
+          st->push_lhs(0);
+        }
         std::cout << "ok\n";
       } else if (w[0] == "tape") {
         std::cout << "T " << st->n_statements() << " " << st->n_operations() << " | " << tape_from(1) << "\n";
